@@ -6,6 +6,7 @@ from fvgen import fmt_arg
 R_ERR = 4000000001
 W_ZERO = 4000000001
 W_ERR = 4000000002
+W_ERR_AB = 4000000003   # write error of kind ConnectionAborted
 
 
 def hscript(ops):
@@ -29,6 +30,8 @@ def hscript(ops):
             out += [8, op[1], op[2]]
         elif op[0] == "fail":
             out += [9, op[1]]
+        elif op[0] == "read?":
+            out += [10, op[1]]
     return out
 
 
